@@ -112,6 +112,12 @@ def build():
     one(r"dirty: Default::default\(\),", cl, "WriteZone::clone is never dirty")
     cm = flat(fn_body(ws, "commit", after="impl WritableZone for WriteZone"))
     one(r"self\.publish_new_zone_version\(\);", cm, "commit publishes")
+    one(r"let old_soa_rr = self\.apex\.get_soa\(self\.last_published_version\(\)\); let mut new_soa_rr = self\.apex\.get_soa\(self\.new_version\); if bump_soa_serial && old_soa_rr\.is_some\(\) && \(new_soa_rr\.is_none\(\) \|\| new_soa_rr == old_soa_rr\) \{ self\.bump_soa_serial\(&old_soa_rr\); new_soa_rr = self\.apex\.get_soa\(self\.new_version\); \}", cm, "commit: SOA bump condition")
+    bs = flat(fn_body(ws, "bump_soa_serial"))
+    one(r"let new_soa_serial = old_soa\.serial\(\)\.add\(1\);", bs, "bump_soa_serial adds 1")
+    one(r"self\.apex \.rrsets\(\) \.update\(new_soa_shared_rrset\.clone\(\), self\.new_version\);$", bs, "bump_soa_serial stores at new_version")
+    one(r"^self\.published_versions\.read\(\)\.current\(\)\.0$", flat(fn_body(ws, "last_published_version")), "last_published_version = current")
+    defs.append(("commit_bumps_soa", "bool", "true"))
     wn = impl_body(ws, r"impl WriteNode\s*\{")
     uc = flat(fn_body(wn, "update_child"))
     one(r"\.with_or_default\(label, \|node, created\| (?:\{ )?\(node\.clone\(\), created\)(?: \})?\)", uc, "update_child creates the node")
